@@ -5,7 +5,7 @@
    strategy answers an index below the number of options it is shown.
    Specification: spec/AncestorSpec.v ([wf_result] = the property's sentence). *)
 From Coq Require Import NArith PeanoNat List Permutation.
-From LV Require Import model.Ancestor spec.AncestorSpec proofs.AncestorProofs.
+From LV Require Import model.Ancestor spec.AncestorSpec proofs.AncestorProofs proofs.AncestorTrace.
 Import ListNotations.
 Local Open Scope N_scope.
 
@@ -23,6 +23,15 @@ Theorem C19_choose_parents_nodup : forall existing options strats result,
   Forall valid strats -> NoDup existing ->
   choose_parents existing options strats = Done result -> NoDup result.
 Proof. exact choose_parents_nodup. Qed.
+
+(* every strategy call is shown the parents chosen so far and exactly the options still offered (any
+   order, no duplicates); the option it points at is the one appended: the recorded calls of a run
+   pass the trace verdict of the driver *)
+Theorem C19_choose_parents_trace : forall existing options strats log result,
+  Forall valid strats ->
+  choose_parents_log existing options strats = (log, Done result) ->
+  trace_ok existing options log result = true.
+Proof. exact choose_parents_trace. Qed.
 
 (* with in-range answers the index expression never panics *)
 Theorem C19_choose_parents_no_panic : forall existing options strats ps,
@@ -74,6 +83,7 @@ Proof. split; vm_compute; reflexivity. Qed.
 
 Print Assumptions C19_choose_parents_wf.
 Print Assumptions C19_choose_parents_nodup.
+Print Assumptions C19_choose_parents_trace.
 Print Assumptions C19_choose_parents_no_panic.
 Print Assumptions C19_metric_choose_maximal.
 Print Assumptions C19_metric_strategy_valid.
